@@ -19,6 +19,94 @@ def short_trace(tr):
     return m.group(0) if m else tr.split(' / ')[0]
 
 
+def _place_path(v, depth=0):
+    """steps from `self` to the place a symbolic value designates: ['contexts', '[0]', 'symbols'] - through borrows, derefs,
+    Index / IndexMut calls with a constant index and `first_mut` / `last_mut`-free accessors; None when it is something else"""
+    from rules.shared import int_of
+    if not isinstance(v, tuple) or depth > 16:
+        return None
+    if v[0] in ('ref', 'deref', 'cast', 'okval'):
+        return _place_path(v[1], depth + 1)
+    if v == ('param', 1):
+        return []
+    if v[0] == 'field':
+        p = _place_path(v[1], depth + 1)
+        return None if p is None else p + [str(v[2])]
+    if v[0] == 'index':
+        p = _place_path(v[1], depth + 1)
+        i = int_of(v[2])
+        return None if p is None or i is None else p + ['[%d]' % i]
+    if v[0] == 'call':
+        n = v[1]
+        if ('ops::index::Index' in n) and len(v[2]) == 2:
+            p = _place_path(v[2][0], depth + 1)
+            i = int_of(v[2][1])
+            return None if p is None or i is None else p + ['[%d]' % i]
+        if n.endswith(('::deref', '::deref_mut', '::as_mut_slice', '::as_slice', '::as_mut', '::as_ref', '::borrow_mut', '::borrow')) and v[2]:
+            return _place_path(v[2][0], depth + 1)
+    return None
+
+
+def _mir_symtab_effects(F, c):
+    """What a method of SymbolTable does, read from its MIR (helpers spliced in) when its source is not one of the spellings the
+    syntactic pass knows: a `&mut self` method that cuts `contexts` back to 1, the scopes of contexts[0] back to 1 and the names of
+    contexts[0].symbols[0] back to a length derived from an argument is a reset; a `&self` method whose result is computed from
+    the length of contexts[0].symbols[0] alone is the mark such a reset can be handed."""
+    from mirlib import callee_name, op_base_local
+    from rules.psc import sym, strip
+    from rules.shared import int_of, LocalFlow, ret_exprs
+    P = 'symbols::SymbolTable::'
+    allf = dict(getattr(F, 'transparent_fns', {}) or {})
+    allf.update(F.fns)
+    for key in sorted(allf):
+        if not key.startswith(P) or '::{closure' in key:
+            continue
+        name = key[len(P):]
+        fn = allf[key]
+        if fn.arg_count < 1:
+            continue
+        ty1 = fn.local_ty(1) or ''
+        is_mut = ty1.startswith('&') and ' mut ' in ty1[:24]
+        if is_mut and name not in ('define', 'resolve', 'new_context', 'leave_context', 'enter_scope', 'leave_scope'):
+            what = set()
+            lf = None
+            dom = fn.dominators()
+            rets = [b for b in range(len(fn.blocks)) if fn.term(b)['k'] == 'return']
+            for b, t in fn.calls():
+                n = callee_name(t)
+                if not (n.endswith('::truncate') and 'Vec' in n and len(t['args']) == 2):
+                    continue
+                if not all(b in dom.get(r, ()) for r in rets):
+                    continue
+                path = _place_path(sym(fn, t['args'][0]))
+                k = int_of(strip(sym(fn, t['args'][1])))
+                if path == ['contexts'] and k == 1:
+                    what.add('contexts')
+                elif path == ['contexts', '[0]', 'symbols'] and k == 1:
+                    what.add('scopes')
+                elif path == ['contexts', '[0]', 'symbols', '[0]'] and fn.arg_count >= 2:
+                    lf = lf or LocalFlow(fn)
+                    l = op_base_local(t['args'][1])
+                    if l is not None and lf.reaches(l, set(range(2, fn.arg_count + 1))) is not None:
+                        what.add('definitions')
+            if what:
+                c.symtab_reset[name] = set(c.symtab_reset.get(name, ())) | what
+        if not is_mut and ty1.startswith('&') and fn.arg_count == 1 and name not in c.symtab_pure and name not in c.symtab_bool and name not in ('resolve',):
+            lens_ = []
+            other = []
+            for b, t in fn.calls():
+                n = callee_name(t)
+                if n.endswith('::len') and t['args']:
+                    lens_.append(_place_path(sym(fn, t['args'][0])))
+                elif 'ops::index::Index' in n or n.endswith(('::deref', '::as_slice')):
+                    continue
+                else:
+                    other.append(n)
+            if lens_ == [['contexts', '[0]', 'symbols', '[0]']] and not other:
+                c.symtab_pure.add(name)
+                c.symtab_marks.add(name)
+
+
 def analyse(ctx):
     def build():
         F = ctx.facts()
@@ -166,6 +254,7 @@ def analyse(ctx):
                 c.symtab_resolve.add(name)
             if name == 'define':
                 c.symtab_define_output = f['output'].replace(' ', '')
+        _mir_symtab_effects(F, c)
         from rules import tables
         pt = tables.pratt_tables(ctx)
         # what the parser can put into the operator fields (R07.6 checks these sets)
